@@ -186,5 +186,8 @@ Theorem C44_rewritten_tag_stays_tag :
   | Ok s => final_tip s = Some 2%nat /\ i_tags s = [([95; 104; 105; 100]%N, 1%nat)]
   | Fail _ => False
   end.
-Proof. exact (conj exported_tags_are_tags (conj invalid_tag_rewritten rewritten_tag_keeps_tip)). Qed.
+Proof.
+  split; [exact exported_tags_are_tags|]. split; [exact invalid_tag_rewritten|].
+  vm_compute. split; reflexivity.
+Qed.
 Print Assumptions C44_rewritten_tag_stays_tag.
